@@ -110,6 +110,26 @@ type doc
 		}, [][3]string{{"doc:big", "viewer", "user:zz"}, {"doc:big", "viewer", "user:u990"}, {"doc:d5", "viewer", "user:a"}},
 			[][3]string{{"doc", "viewer", "user:a"}, {"doc", "viewer", "user:zz"}},
 			[][2]string{{"doc:big", "viewer"}}},
+		// ListUsers only: the subtracted operand of an exclusion leads into a chain of nested groups (below the
+		// depth limit) read at 350 ms per datastore call, so that branch alone needs ~8 s: deadline and
+		// cancellation have to reach the subtracted branch too, not just the base
+		{"heavy-subtract", `model
+  schema 1.1
+type user
+type group
+  relations
+    define member: [user, group#member]
+type doc
+  relations
+    define viewer: [user]
+    define blocked: [group#member]
+    define reader: viewer but not blocked`, func() []*openfgav1.TupleKey {
+			t := []*openfgav1.TupleKey{tk("doc:d1", "viewer", "user:a"), tk("doc:d1", "blocked", "group:g0#member")}
+			for i := 0; i < 21; i++ {
+				t = append(t, tk(fmt.Sprintf("group:g%d", i), "member", fmt.Sprintf("group:g%d#member", i+1)))
+			}
+			return append(t, tk("group:g21", "member", "user:b"))
+		}, nil, nil, [][2]string{{"doc:d1", "reader"}, {"doc:d1", "reader"}, {"doc:d1", "reader"}}},
 	}
 }
 
@@ -301,8 +321,17 @@ type doc
 				if d.sc.name == "wide-fanout" && lat > time.Millisecond {
 					continue
 				}
+				if d.sc.name == "heavy-subtract" {
+					if li != 0 {
+						continue
+					}
+					lat = 350 * time.Millisecond
+				}
 				sv.ods.ReadLatency.Store(int64(lat))
 				sv.ods.NextLatency.Store(int64(lat / 4))
+				if d.sc.name == "heavy-subtract" {
+					sv.ods.NextLatency.Store(0)
+				}
 				// settle, then baseline
 				quiesce(sv, nil, 3*time.Second)
 				base := census()
